@@ -12,6 +12,7 @@ import (
 	"github.com/spf13/afero"
 
 	"dvh/internal/corekit"
+	"dvh/internal/crashstore"
 	"dvh/internal/memstore"
 	"dvh/internal/tr"
 
@@ -182,6 +183,62 @@ func c04(c *ctx) error {
 		}
 		sort.Strings(ents)
 		c.w.Op(op, fmt.Sprintf("ok entries=%s ## count=%d", strings.Join(ents, ";"), mb.BundleDescriptor.BundleEntriesFileCount))
+		// ---- the same upload again while ONE store call fails transiently (an existence check or a
+		// read of the source, a write of a blob or of metadata): the upload fails, or it yields the
+		// same entries — never a bundle that silently lacks or alters a file
+		for q := 0; q < 3; q++ {
+			e2 := corekit.NewEnv()
+			if e2.CreateRepo("r") != nil {
+				break
+			}
+			g := &crashstore.Group{}
+			kind := "src-has"
+			switch {
+			case !skip && r.Intn(3) == 0:
+				kind = "src-get" // with skip-missing a failed read IS a skip, by design: only without
+				g.FailReadOp, g.FailReadAt = "get", 1+r.Intn(len(files)+1)
+			case r.Intn(3) == 0:
+				kind = "store-put"
+				g.FailOnceAt = 1 + r.Intn(2*len(files)+3)
+			default:
+				g.FailReadOp, g.FailReadAt = "has", 1+r.Intn(len(files)+1)
+			}
+			src := crashstore.Wrap(g, "src", corekit.TreeStore(files))
+			st2 := corekit.WithStores(e2.Wal, e2.ReadLog, crashstore.Wrap(g, "blob", e2.Blob), crashstore.Wrap(g, "meta", e2.Meta), e2.VMeta)
+			if kind != "store-put" {
+				st2 = e2.Stores
+			}
+			b2 := corekit.NewBundle(st2, "r", src, uint32(leaf), "", core.ConcurrentFileUploads(upConc), core.SkipMissing(skip))
+			err2 := corekit.Recover(func() error { return core.VerifUpload(ctx, b2, uint(perFile), getKeys) })
+			fired := (g.FailReadAt != 0 && g.Reads() >= g.FailReadAt)
+			for _, w := range g.Snapshot() {
+				if w.Err && !w.Landed && g.FailOnceAt != 0 {
+					fired = true
+				}
+			}
+			if !fired {
+				continue
+			}
+			got := "err"
+			if err2 == nil {
+				got = "diff"
+				mb2 := corekit.NewBundle(e2.Stores, "r", nil, 0, b2.BundleID)
+				if corekit.Recover(func() error { return core.VerifDownloadMetadata(ctx, mb2, uint(perFile)) }) == nil {
+					ents2 := make([]string, 0, len(mb2.BundleEntries))
+					for _, en := range mb2.BundleEntries {
+						ents2 = append(ents2, fmt.Sprintf("%s:%s:%d", tr.Esc(en.NameWithPath), en.Hash, en.Size))
+					}
+					sort.Strings(ents2)
+					if strings.Join(ents2, ";") == strings.Join(ents, ";") {
+						got = "same"
+					} else {
+						got = fmt.Sprintf("diff:%d-entries-instead-of-%d", len(ents2), len(ents))
+					}
+				}
+			}
+			c.w.Op(fmt.Sprintf("uploadf keys=%s skip=%d fault=%s got=%s", keysArg, sk, kind, got), "sound")
+			c.w.Count("upload-with-fault=" + kind)
+		}
 		// ---- downloads: full, filtered, single file
 		sels := []string{"all"}
 		names := c04SortedKeys(tree)
